@@ -506,6 +506,54 @@ def signature(c, res):
     return sig
 
 
+def regenerate_and_prove(ctx):
+    """Stage R: translate tvl_and / tvl_or / Qube.or_ / Qube.and_ from the current source into
+    coq/gen/Gen_logic.v (fail closed) and re-check the obligations of coq/obl/C14_logic.v on it."""
+    import importlib
+    import os
+    import re
+    import sys
+    sys.path.insert(0, lib.VERIF)
+    os.environ['VERIF_REPO'] = lib.REPO
+    la = importlib.import_module('tools.regen.logic_ast')
+    la.REPO = lib.REPO
+    gen = os.path.join(lib.COQ, 'gen')
+    extra = ('-R', gen, 'PMGen')
+    names = ['C14_gen_kleene_and', 'C14_gen_kleene_or', 'C14_gen_model_and', 'C14_gen_model_or',
+             'C14_gen_or2', 'C14_gen_and2']
+    try:
+        path = la.generate(os.path.join(gen, 'Gen_logic_%d.v' % os.getpid()))
+    except la.Untranslatable as e:
+        for n in names:
+            ctx.obligations.append((n, False, 'regeneration failed'))
+        ctx.broken_tie('regeneration', 'logic_ast',
+                       'tvl.py / Qube.or_ / Qube.and_ are outside the translated subset: %s' % e)
+        return
+    # one process may run next to another: generate under a private name, then move into place
+    final = os.path.join(gen, 'Gen_logic.v')
+    os.replace(path, final)
+    rc, out, err, dt = lib.run_coqc(final, timeout=120, extra=extra)
+    if rc != 0:
+        for n in names:
+            ctx.obligations.append((n, False, (err or out)[-1500:]))
+        ctx.broken_tie('proof', 'gen/Gen_logic.v', (err or out)[-1500:])
+        return
+    obl = os.path.join(lib.COQ, 'obl', 'C14_logic.v')
+    rc, out, err, dt = lib.run_coqc(obl, timeout=300, extra=extra)
+    if rc == 0:
+        for n in names:
+            ctx.obligations.append((n, True, 'obl/C14_logic.v over regenerated Gen_logic.v'))
+            ctx.axioms[n] = 'Closed under the global context' if 'Axioms:' not in out else out[-800:]
+        ctx.log('regenerated logic: %d obligations re-proved in %.1fs' % (len(names), dt))
+    else:
+        msg = (err or out)[-1500:]
+        m = re.search(r'line (\d+)', msg)
+        for n in names:
+            ctx.obligations.append((n, False, msg))
+        ctx.broken_tie('proof', 'obl/C14_logic.v', msg)
+        ctx.log('REGENERATED OBLIGATION BROKEN\n' + msg)
+
+
 def run(ctx):
     Pm = P()
     ctx.rule = ('exhaustive arrays over {T,F,M} (length<=%d, 2-D up to 2x3 in thorough) for tvl/strict '
@@ -516,6 +564,7 @@ def run(ctx):
                        'Python bool vs Boolean result representation is part of the compared observation']
     if ctx.ensure_library():
         ctx.prove(['theories/Props/C14.v'])
+        regenerate_and_prove(ctx)
     cases = gen_cases(ctx.rng, ctx.tier)
     terms, idx = [], []
     bad = []
